@@ -99,11 +99,14 @@ InfersDialect(a, d) == Infer(Render(a, d, TRUE, FALSE)).d = Observable(a, d)
 (* line of a case, its space-separated rendering, and the case record that *)
 (* generators print for the harness.                                       *)
 (***************************************************************************)
-LineCols(n) == CASE n % 4 = 0 -> <<<<99, 104, 114, 49>>, <<115, 114, 99>>, <<103, 101, 110, 101>>, <<49, 48, 48>>, <<50, 48, 48>>, <<46>>, <<43>>, <<46>>>>
-                 [] n % 4 = 1 -> <<<<99, 104, 114, 50>>, <<46>>, <<101, 120, 111, 110>>, <<46>>, <<46>>, <<48, 46, 53>>, <<45>>, <<48>>>>
-                 [] n % 4 = 2 -> <<<<50, 76>>, <<70, 108, 121, 66, 97, 115, 101>>, <<67, 68, 83>>, <<53, 51, 54, 56, 55, 48, 57, 49, 49>>, <<53, 51, 54, 56, 55, 48, 57, 49, 51>>, <<49, 101, 45, 53>>, <<46>>, <<50>>>>
-                 [] OTHER -> <<<<99, 116, 103, 95, 49, 46, 49>>, <<97, 45, 98>>, <<102, 105, 118, 101, 95, 112, 114, 105, 109, 101, 95, 85, 84, 82>>, <<49>>, <<49>>, <<55>>, <<43>>, <<46>>>>
-LineExtra(n) == CASE n % 3 = 0 -> <<>> [] n % 3 = 1 -> <<<<120>>>> [] OTHER -> <<<<101, 49>>, <<>>, <<101, 51>>>>
+LineCols(n) == CASE n % 6 = 0 -> <<<<99, 104, 114, 49>>, <<115, 114, 99>>, <<103, 101, 110, 101>>, <<49, 48, 48>>, <<50, 48, 48>>, <<46>>, <<43>>, <<46>>>>
+                 [] n % 6 = 1 -> <<<<99, 104, 114, 50>>, <<46>>, <<101, 120, 111, 110>>, <<46>>, <<46>>, <<48, 46, 53>>, <<45>>, <<48>>>>
+                 [] n % 6 = 2 -> <<<<50, 76>>, <<70, 108, 121, 66, 97, 115, 101>>, <<67, 68, 83>>, <<53, 51, 54, 56, 55, 48, 57, 49, 49>>, <<53, 51, 54, 56, 55, 48, 57, 49, 51>>, <<49, 101, 45, 53>>, <<46>>, <<50>>>>
+                 [] n % 6 = 3 -> <<<<99, 116, 103, 95, 49, 46, 49>>, <<97, 45, 98>>, <<102, 105, 118, 101, 95, 112, 114, 105, 109, 101, 95, 85, 84, 82>>, <<49>>, <<49>>, <<55>>, <<43>>, <<46>>>>
+                 \* exactly ONE of start / end is '.'
+                 [] n % 6 = 4 -> <<<<99, 104, 114, 49>>, <<115>>, <<103, 101, 110, 101>>, <<46>>, <<55, 55>>, <<46>>, <<43>>, <<46>>>>
+                 [] OTHER -> <<<<99, 104, 114, 49>>, <<115>>, <<103, 101, 110, 101>>, <<49, 50>>, <<46>>, <<46>>, <<45>>, <<46>>>>
+LineExtra(n) == CASE (n \div 6) % 3 = 0 -> <<>> [] (n \div 6) % 3 = 1 -> <<<<120>>>> [] OTHER -> <<<<101, 49>>, <<>>, <<101, 51>>>>      \* n in 0..17: 6 column shapes x 3 extras
 
 InG(a, d) == a = <<>> \/ InGrammar(a, d)
 Obs(a, d) == IF a = <<>> THEN DefaultDialect ELSE Observable(a, d)
